@@ -108,7 +108,7 @@ def search(rep: C.Report, tier: str, broken):
             e_first, e_last = max(errs[Ms[0]]), max(errs[Ms[-1]])
             # discretisation error: small at M=40 for shapes inside the property's box, and falling spectrally with M
             finite = all(np.isfinite(x) for m_ in Ms for x in errs[m_])
-            if not finite or e_first > 2e-2 or e_last > max(1e-6, 0.2 * e_first) or e_last > 1e-4:
+            if not finite or not e_first <= 0.02 or (not e_last <= max(1e-06, 0.2 * e_first)) or (not e_last <= 0.0001):
                 rep.violation("wall pressure in a uniform plasma differs from V(phi_low) - V(phi_high) (beyond the spectrally "
                               "decreasing discretisation error)", dict(info, rel_errors_by_M={m: list(map(float, errs[m])) for m in Ms}),
                               finding_key=f"C09:pressure:{kind}" + ("" if not params_ else ":units"))
